@@ -188,7 +188,8 @@ def rule_e(repo, chk):
     g = repo.find(REFS, 'gitignored_paths')
     cg = cfg_of(g)
     strip = [n for n in cg.nodes if isinstance(n.ast, ast.Assign) and 'rstrip(\'/\')' in norm(n.ast.value)]
-    slash = [n for n in cg.nodes if n.kind == 'test' and norm(n.ast) == "'/' in p"]
+    from ..lib import atom_key
+    slash = [n for n in cg.nodes if n.kind == 'test' and atom_key(n.ast, None)[0] == atom_key(ast.parse("'/' in p", mode='eval').body, None)[0]]     # either polarity
     chk.ob('C19.e', len(strip) == 1 and len(slash) == 1, g, 'gitignored_paths strips a trailing slash and distinguishes anchored from bare patterns')
     if strip and slash:
         p = cg.reach([cg.entry], lambda n: n in slash, block_node=lambda n: n in strip)
